@@ -600,6 +600,7 @@ impl<'a> Tr<'a> {
             return self.err(fl, "untranslatable: labelled loop");
         }
         let it = self.expr(&fl.expr, env, None)?;
+        let it = self.drained(&it).unwrap_or(it);
         let elt = match it.ty.strip_into() {
             Ty::List(t) => (**t).clone(),
             t => return self.err(fl, format!("untranslatable: `for` over a value of type {} (only lists)", t.show())),
@@ -907,6 +908,20 @@ impl<'a> Tr<'a> {
                 Ok(format!("let '{} := {} in\n  {}", tuple, fix, r))
             }
         }
+    }
+
+    /// a value of an iterator-struct type, consumed: the list of the items its generated `next` yields
+    fn drained(&self, v: &Val) -> Option<Val> {
+        if let Ty::Named(n) = v.ty.strip_into() {
+            if let Some((next, item, fuel)) = self.ctx.types.get(n).and_then(|t| t.iter.clone()) {
+                let i = self.ctx.fns.iter().position(|x| x.gen == next)?;
+                self.deps.borrow_mut().insert(i);
+                let fu = fuel.replace("$0", &v.t);
+                let ity = if self.ctx.types.contains_key(&item) { Ty::Named(item) } else { Ty::Unknown };
+                return Some(val(format!("(tr_drain {} {} {})", next, fu, v.t), Ty::List(Box::new(ity))));
+            }
+        }
+        None
     }
 
     /// `while_step`: one iteration of the loop is the generated step function `g` (translated from the same loop body
@@ -2670,6 +2685,32 @@ impl<'a> Tr<'a> {
                 *self.cur_call.borrow_mut() = Some((permitted, c.args.iter().cloned().collect()));
                 return self.emit_call(e, i, args);
             }
+            // `Trait::method(&x, ..)`: the method of the type of `x` from that trait
+            if !self.ctx.types.contains_key(&tn) && !c.args.is_empty() {
+                if let Ok(x) = self.expr(&c.args[0], env, None) {
+                    if let Ty::Named(xn) = x.ty.strip_into().clone() {
+                        let cands: Vec<usize> = self
+                            .ctx
+                            .lookup(&xn, &segs[1])
+                            .into_iter()
+                            .filter(|&i| {
+                                let f = &self.ctx.fns[i];
+                                f.has_self && (f.trait_base.as_deref() == Some(tn.as_str()) || f.label.contains(&format!(" as {}", tn)))
+                            })
+                            .collect();
+                        if let Some(i) = self.pick(&cands) {
+                            if c.args.len() != self.ctx.fns[i].params.len() {
+                                return self.err(e, "call with the wrong number of arguments");
+                            }
+                            let mut args = vec![x];
+                            for (a, p) in c.args.iter().zip(self.ctx.fns[i].params.iter()).skip(1) {
+                                args.push(self.expr(a, env, Some(&p.ty))?);
+                            }
+                            return self.emit_call(e, i, args);
+                        }
+                    }
+                }
+            }
             return self.err(e, format!("untranslatable: call of `{}::{}` (not in the spec)", tn, segs[1]));
         }
         self.err(e, format!("untranslatable: call of `{}`", norm_tokens(p)))
@@ -2790,6 +2831,19 @@ impl<'a> Tr<'a> {
                 },
             };
         }
+        // a method of `impl Trait for &'a [X]` in the spec
+        if let Ty::List(el) = recv.ty.strip_into() {
+            if let Ty::Named(en) = &**el {
+                let cands: Vec<usize> = self.ctx.lookup(&format!("&'a[{}]", en), &m).into_iter().filter(|&i| self.ctx.fns[i].has_self).collect();
+                if let Some(i) = self.pick(&cands) {
+                    return spec_call(i, recv);
+                }
+            }
+        }
+        let recv = match recv.ty.strip_into() {
+            Ty::Named(tn) if matches!(m.as_str(), "map" | "filter" | "sum" | "collect" | "flat_map" | "any" | "all" | "find_map") && self.ctx.lookup(tn, &m).is_empty() => self.drained(&recv).unwrap_or(recv),
+            _ => recv,
+        };
         let rty = recv.ty.strip_into().clone();
         match &rty {
             Ty::Named(tn) => {
@@ -2866,6 +2920,9 @@ impl<'a> Tr<'a> {
                     ("sum", 0) => match &**elt {
                         // Iterator::sum for integers starts from 0
                         Ty::Int => Ok(val(format!("(fold_left Z.add {} 0%Z)", recv.t), Ty::Int)),
+                        // Iterator::sum for f64: a left fold of `+` from zero (the models start from +0.0; std has started from
+                        // -0.0 since Rust 1.83, which differs only for an empty or all-(-0.0) sequence: the sign of the zero)
+                        Ty::F64 => Ok(val(format!("(fold_left fadd {} (fofZ 0))", recv.t), Ty::F64)),
                         t => self.err(e, format!("untranslatable: `sum` of {}", t.show())),
                     },
                     _ => self.err(e, format!("untranslatable: method `{}` on {}", m, rty.show())),
